@@ -42,8 +42,8 @@ structure Ref (fc : FC) (a : Abs) : Prop where
   fE : fc.pa.fEpoch = fc.finalized.epoch
   /-- an untouched tracker is all zero (so "first vote in epoch 0" is recognised correctly) -/
   fresh : ∀ v ∈ fc.votes, v.next = NodeRef.zero → v = Vote.zero
-  /-- pending votes are nodes -/
-  next_in : ∀ v ∈ fc.votes, v.next = NodeRef.zero ∨ (aGet fc.pa.indices v.next).isSome
+  /-- pending votes are nodes, or already applied (then the node may have been pruned since) -/
+  next_in : ∀ v ∈ fc.votes, v.next = NodeRef.zero ∨ (aGet fc.pa.indices v.next).isSome ∨ v.cur = v.next
   /-- the applied vote is never newer than the pending one; equal epochs mean equal votes -/
   cur_le : ∀ v ∈ fc.votes, v.cur = NodeRef.zero ∨ (v.curEpoch ≤ v.nextEpoch ∧ (v.curEpoch = v.nextEpoch → v.cur = v.next))
   /-- with no change pending every vote is applied -/
